@@ -108,6 +108,7 @@ func runSeeds(spec *PropertySpec, repoDir, outDir string) []seedOutcome {
 			outs = append(outs, so)
 			continue
 		}
+		theProgram = prog
 		c := &Ctx{P: prog, Tier: "thorough", Prop: spec.ID}
 		rules := map[string]bool{}
 		for _, rf := range spec.Rules {
